@@ -178,7 +178,7 @@ def minimise(run, trace, rule, seconds=MAX_SECONDS):
     try_cfg(set_cfg("cap", None))
 
     def clear_cb(t):
-        t["callback_faults"] = {"clone_panic_at": None, "weigh_panic_at": None}
+        t["callback_faults"] = {"clone_panic_at": None, "weigh_panic_at": None}  # (hash/eq panics default to None)
     try_cfg(clear_cb)
 
     # faults per op
